@@ -121,12 +121,26 @@ def main():
         if unit is not None and rng.random() < 0.2:
             # a set_sampling_period() call that is refused (tolerance outside [0, 1]) must leave the configured period alone
             refused = [{"o": 1, "a": "config", "set_period": [pnum * rng.choice([2, 3, 10]), punit, rng.choice([1.5, -0.25, 7])], "reject": True}]
+        SMALLER = {"s": "ms", "ms": "us", "us": "ns"}
+        def restated():
+            # the same period and a (possibly) new tolerance, the period possibly re-stated in the next smaller unit (1 s = 1000 ms)
+            tol2 = rng.choice([t_ for t_ in TOLS if t_ and (P * t_[0]) % t_[1] == 0])
+            T2 = P * tol2[0] // tol2[1]
+            if not (dyadic or all(abs(g_ - (P - T2)) * 50 > P and abs(g_ - (P + T2)) * 50 > P for g_ in classes)):
+                tol2, T2 = (tn, td), T
+            pn2, pu2 = (pnum * 1000, SMALLER[punit]) if rng.random() < 0.6 and pnum < 10 ** 6 else (pnum, punit)
+            return {"o": 1, "a": "config", "set_period": [pn2, pu2, tol2[0] / float(tol2[1])], "period": P, "tol": T2}
         if online:
             evs = [ev_parse()] + refused
             k0 = rng.randrange(N + 1) if rng.random() < 0.3 else None
+            kc = rng.randrange(N + 1) if unit is not None and rng.random() < 0.3 else None
             for k in range(N):
+                if kc == k and rng.random() < 0.5:
+                    evs.append(restated())
                 if k0 == k:
                     evs.append(ev_reset())
+                if kc == k and evs[-1].get("a") != "config" and (len(evs) < 2 or evs[-2].get("a") != "config"):
+                    evs.append(restated())
                 evs.append(ev_update(ts[k], sample_at(w, k)))
         else:
             evs = [ev_parse()] + refused + [ev_evaluate(ts, w)]
@@ -139,10 +153,7 @@ def main():
                         ts2.append(ts2[-1] + rng.choice(classes))
                 if unit is not None and rng.random() < 0.5:
                     # another tolerance, set between the two evaluations: the counter of the second data set is taken with it
-                    tol2 = rng.choice([t_ for t_ in TOLS if t_ and (P * t_[0]) % t_[1] == 0])
-                    T2 = P * tol2[0] // tol2[1]
-                    if dyadic or all(abs(g_ - (P - T2)) * 50 > P and abs(g_ - (P + T2)) * 50 > P for g_ in classes):
-                        evs.append({"o": 1, "a": "config", "set_period": [pnum, punit, tol2[0] / float(tol2[1])], "period": P, "tol": T2})
+                    evs.append(restated())
                 evs.append(ev_evaluate(ts2, gen_trace(rng, ["x"], N, S)))
         c = case([o], evs)
         if o.get("skip_ast"):
